@@ -43,6 +43,23 @@ CHECKS["C12"] = dict(
     design="DESIGN.md §5 C12",
     technique="Coq proof (loop invariant over a commutative-monoid valuation, Qc and nat instances) + differential correspondence")
 
+CHECKS["C09"] = dict(
+    text=("Theorems over the model of build_decay_chains on decay tables: for acyclic tables (rank function) the build "
+          "returns with fuel rank+2, its result satisfies the inductive specification `unfolds` (one entry per line in order "
+          "with bf/model/parameters; daughter bare iff in S or without table, else the chain for that daughter with the same S), "
+          "the specification determines the chain uniquely; not-found error iff no table. Unbounded in tables, depth, S. "
+          "Tie: generated acyclic table sets rendered to .dec text and parsed by the implementation, all/random stable subsets."),
+    design="DESIGN.md §5 C09",
+    technique="Coq proof (fuel induction: soundness, determinism, termination under a rank) + differential correspondence")
+CHECKS["C10"] = dict(
+    text=("Theorems over the model of _expand_decay_modes on chain dictionaries: the descriptor list is, in order, the rendering "
+          "of the enumeration `paths`; a tree is enumerated iff it is a complete decay path (`vpath`: one line per decaying "
+          "particle, daughters without lines stable); no path twice; length = sum over lines of products of daughters' counts. "
+          "Unbounded in shape. Tie: generated acyclic tables with aliases and empty blocks through "
+          "DecFileParser.expand_decay_modes vs build+expand in the model."),
+    design="DESIGN.md §5 C10",
+    technique="Coq proof (nested induction over chain dictionaries, cartesian-product lemmas) + differential correspondence")
+
 NOT_YET = {
 }
 
